@@ -38,6 +38,13 @@ func (s *SyslogIngester) Process(ctx context.Context, line string) error {
 // ParseSyslogMessage expects a message in the form of "<PID> <Message>".
 func (s *SyslogIngester) ParseSyslogMessage(entry string) sshd.SshdLogEntry {
 	minimumEntrySplitLength := 2
+
+	// The named pipe ingester passes each line along with the newline
+	// that terminates it. The newline is not part of the sshd message
+	// (most of the sshd regular expressions are anchored to the end of
+	// the message and would otherwise never match).
+	entry = strings.TrimSuffix(entry, "\n")
+
 	entrySplit := strings.Split(entry, " ")
 
 	if len(entrySplit) < minimumEntrySplitLength {
